@@ -26,6 +26,9 @@ C19_ONLY_OPS = {"pkcs8_wrongpass", "tls_cbc_badmac"}
 OPS = ["sm2_keygen", "sm2_sign", "sm2_sign_ctx", "sm2_sign_ctx_multi", "sm2_encrypt", "sm2_ecdhe", "sm9_sign", "sm9_encrypt", "sm9_exchange",
        "pkcs8", "x509_sign", "cms_sign", "cms_envelop", "tls_cbc", "tls_record", "tls_random", "tls_pms",
        "tls_ske_sign", "tls13_cv_sign", "tls13_padding"] + NEW_OPS
+# operations whose first entropy draw is a rejection-sampled scalar (nonce or private key)
+RR_FIRST = ["sm2_keygen", "sm2_sign", "sm2_encrypt", "sm2_ecdhe", "sm2_sign_ctx", "sm2_enc_precomp", "tls_ske_sign", "tls13_cv_sign", "x509_sign", "cms_sign",
+            "cms_envelop", "cms_rcpt_info", "sm9_sign", "sm9_encrypt", "sm9_exchange", "sm9_sign_master_keygen", "sm9_enc_master_keygen"]
 NOENT = ["cms_encrypt", "tls13_gcm"]
 HEAVY = {"sm9_sign", "sm9_encrypt", "sm9_exchange", "pkcs8"} | {o for o in NEW_OPS if o.startswith("sm9_") and o != "sm9_fp12_rand"} | {"sm2_pkcs8_pem", "xmss_keygen"}
 REPEAT = {"sm2_keygen": 1000, "sm2_sign": 1000, "sm2_encrypt": 1000, "sm2_ecdhe": 300, "sm2_sign_ctx": 100, "tls_cbc": 1000, "tls_record": 1000,
@@ -171,6 +174,21 @@ def coverage_part(ctx, stats):
     for f in unc:
         ctx.violation("uncovered:" + f, "%s() (%s) depends on the entropy source and is exported, but no harness operation reaches it: its draws are never made to fail" % (
             f, fdefs[f]["file"]), {"kind": "table-row", "theorem_or_file": "coverage of E by props/C18/harness.c + hs_harness.c", "row": {"function": f, "file": fdefs[f]["file"]}}, False)
+    # every exported member of E that works on a caller-held mutable context must be used REPEATEDLY on one context
+    # (ctx_step of `recover`, or a *_multi operation): nonce pools live there
+    try:
+        rep = reached("harness.c", ["ctx_step", "op_sm2_sign_ctx_multi"])
+    except Exception:
+        rep = set()
+    for f in exported:
+        ps = fdefs[f].get("params") or []
+        if ps and re.search(r"_CTX \*$", ps[0][1]) and "const" not in ps[0][1]:
+            ctx.cov["evaluations"] += 1
+            if f in rep:
+                ctx.cell("ctx-repeated:" + f)
+            else:
+                ctx.violation("uncovered-ctx:" + f, "%s() draws entropy into / out of a caller-held %s but no harness operation uses one context repeatedly through it" % (f, ps[0][1]),
+                              {"kind": "table-row", "theorem_or_file": "repeated-use coverage of context entry points", "row": {"function": f}}, False)
     # every randomised op the harness defines must be driven by this file
     names = set()
     for src in ("sysops.h", "harness.c"):
@@ -256,6 +274,16 @@ def phase1(ctx):
         rels = [0] if pre % 32 else ([0, 1, 15, 30, 31] if not thorough else list(range(32)))
         for rel in rels:
             cs.append(("recover sm2_sign_ctx %d %d %d 40" % (sd(), pre, rel), "recover:sm2_sign_ctx:pre=%s:%s" % (pre if pre % 32 else "32k", "first" if rel == 0 else ("last" if rel == 31 else "middle"))))
+    for kind, pres in (("sm2_sign_ctx_fixlen", (0, 1, 31, 32, 33)), ("sm9_sign_ctx", (0, 2))):
+        for pre in pres:
+            for rel in ((0,) if kind.startswith("sm9") or pre % 32 else (0, 15, 31)):
+                cs.append(("recover %s %d %d %d %d" % (kind, sd(), pre, rel, 3 if kind.startswith("sm9") else 40), "recover:%s:pre=%s" % (kind, pre if pre % 32 else "32k")))
+    # boundary values of the drawn scalar (first draw of every operation whose first draw is a rejection-sampled scalar)
+    for op in RR_FIRST:
+        for kindv in ("zero", "n", "nplus", "max", "one", "nminus1", "nminus2"):
+            if op in HEAVY and thorough is False and kindv in ("nplus", "nminus2"):
+                continue
+            cs.append(("bval %s %d %s" % (op, sd(), kindv), "bval:%s:%s" % (op, kindv)))
     for pre in (0, 7, 8, 9):
         for rel in (0, 3, 7):
             cs.append(("recover sm2_enc_ctx %d %d %d 20" % (sd(), pre, rel), "recover:sm2_enc_ctx:pre=%d" % pre))
@@ -295,6 +323,14 @@ def run(ctx):
                 else:
                     ctx.violation("randguard", "rand_bytes length guard: `%s` -> %s" % (line, o[:200]),
                                   {"kind": "failing-input", "op": line, "impl": o, "expected": "GUARD ok", "variant": "asan"}, True)
+                continue
+            if kind == "bval":
+                if o.startswith("OK"):
+                    ctx.cell(cell + (":redrawn" if "redrawn" in o else ":accepted"))
+                else:
+                    ctx.violation("bval:%s" % op, "boundary value `%s` as the first drawn scalar: `%s` -> %s" % (line.split()[3], line, o[:200]),
+                                  {"kind": "failing-input", "op": line, "impl": o, "expected": "OK (0 and values >= n are drawn again; 1, n-2 are used; the output verifies)", "variant": "asan",
+                                   "stderr": err[-1200:] if o.startswith("FAULT") else ""}, True)
                 continue
             if kind == "recover":
                 if o.startswith("FRESH"):
